@@ -58,13 +58,18 @@ func genC17(t *rapid.T) interface{} {
 	return c
 }
 
+// c17Own counts, independently of the library's own counter, every request made to a rule of the
+// family (cache hits included) and every evaluation of a rule body.
+var c17Own int
+
 func c17Parser(family string, variant int, limit *int) parsley.Parser {
 	perm := variant&1 != 0
 	extra := variant&2 != 0
 	choice := variant&4 != 0
 	guard := func(p parsley.Parser) parsley.Parser {
 		return parser.Func(func(ctx *parsley.Context, l data.IntMap, pos parsley.Pos) (parsley.Node, data.IntSet, parsley.Error) {
-			if *limit > 0 && ctx.CallCount() > *limit {
+			c17Own++
+			if *limit > 0 && (ctx.CallCount() > *limit || c17Own > *limit) {
 				panic(callLimit{ctx.CallCount()})
 			}
 			return p.Parse(ctx, l, pos)
@@ -86,9 +91,9 @@ func c17Parser(family string, variant int, limit *int) parsley.Parser {
 	}
 	memo := func(p parsley.Parser) parser.Func {
 		if extra {
-			return combinator.Memoize(combinator.Memoize(guard(p)))
+			return guard(combinator.Memoize(combinator.Memoize(guard(p)))).(parser.Func)
 		}
-		return combinator.Memoize(guard(p))
+		return guard(combinator.Memoize(guard(p))).(parser.Func)
 	}
 	wrap := func(p parsley.Parser) parsley.Parser {
 		if extra {
@@ -315,6 +320,7 @@ func c17ValidInput(family string, n int, shape int) string {
 
 func c17Calls(p parsley.Parser, in string, limit *int, lim int) (calls int, perr error, aborted bool) {
 	*limit = lim
+	c17Own = 0
 	defer func() {
 		*limit = 0
 		if r := recover(); r != nil {
@@ -349,8 +355,8 @@ func checkC17(ci interface{}, st *Stats) error {
 		sizes = append(sizes, s)
 	}
 	sizes = append(sizes, c.N, 2*c.N)
-	prevCalls, prevLen := 0, 0
-	var c1, c2 int
+	prevCalls, prevLen, prevOwn := 0, 0, 0
+	var c1, c2, own1 int
 	var in1 string
 	for i, sz := range sizes {
 		in := c17Input(c.Family, sz, c.Shape)
@@ -372,17 +378,28 @@ func checkC17(ci interface{}, st *Stats) error {
 		if perr != nil && !strings.HasPrefix(perr.Error(), "failed to parse the input: ") {
 			return fmt.Errorf("input of size %d (%q): unexpected kind of error %v", sz, truncate(in, 80), perr)
 		}
+		// the harness's own count of rule requests and rule evaluations obeys the same bound (the
+		// library's counter is what the property names; this one does not depend on it)
+		if i > 0 && prevOwn >= 20 {
+			ol := 16 * float64(prevOwn)
+			if r := float64(len(in)) / float64(prevLen) / 2; r > 1 {
+				ol *= r * r * r * r
+			}
+			if float64(c17Own) > ol {
+				return fmt.Errorf("rule requests and evaluations counted by the harness: %d for %d bytes, %d for %d bytes: more than 16x for (at most) a doubling of the input (the library's own counter says %d and %d)", prevOwn, prevLen, c17Own, len(in), prevCalls, calls)
+			}
+		}
 		if sz == c.N {
-			c1, in1 = calls, in
+			c1, in1, own1 = calls, in, c17Own
 		}
 		if sz == 2*c.N {
 			c2 = calls
 		}
-		prevCalls, prevLen = calls, len(in)
+		prevCalls, prevLen, prevOwn = calls, len(in), c17Own
 	}
 	c1b, _, _ := c17Calls(p, in1, &limit, 0)
-	if c1 != c1b {
-		return fmt.Errorf("the call count for the same grammar and input differs between runs: %d, %d", c1, c1b)
+	if c1 != c1b || c17Own != own1 {
+		return fmt.Errorf("the call count for the same grammar and input differs between runs: %d, %d (requests and evaluations counted by the harness: %d, %d)", c1, c1b, own1, c17Own)
 	}
 	// a freshly constructed grammar must give the same count as well
 	limit2 := 0
